@@ -28,12 +28,14 @@ theorem source_tie :
        "CALLABLE_AND_ARGS_DEFAULT_VALUE", "CALLABLE_DEFAULT_VALUE", "TRAIT_SET_OBJECT_DEFAULT_VALUE",
        "DISALLOW_DEFAULT_VALUE"]
     ∧ Generated.defaultValueMembers =
-      [("unspecified", -1), ("constant", Generated.CONSTANT_DEFAULT_VALUE), ("missing", Generated.MISSING_DEFAULT_VALUE),
-       ("object", Generated.OBJECT_DEFAULT_VALUE), ("list_copy", Generated.LIST_COPY_DEFAULT_VALUE),
-       ("dict_copy", Generated.DICT_COPY_DEFAULT_VALUE), ("trait_list_object", Generated.TRAIT_LIST_OBJECT_DEFAULT_VALUE),
-       ("trait_dict_object", Generated.TRAIT_DICT_OBJECT_DEFAULT_VALUE),
-       ("callable_and_args", Generated.CALLABLE_AND_ARGS_DEFAULT_VALUE), ("callable", Generated.CALLABLE_DEFAULT_VALUE),
-       ("trait_set_object", Generated.TRAIT_SET_OBJECT_DEFAULT_VALUE), ("disallow", Generated.DISALLOW_DEFAULT_VALUE)]
+      [("unspecified", -1), ("constant", 0), ("missing", 1), ("object", 2), ("list_copy", 3), ("dict_copy", 4),
+       ("trait_list_object", 5), ("trait_dict_object", 6), ("callable_and_args", 7), ("callable", 8),
+       ("trait_set_object", 9), ("disallow", 10)]
+    ∧ [Generated.CONSTANT_DEFAULT_VALUE, Generated.MISSING_DEFAULT_VALUE, Generated.OBJECT_DEFAULT_VALUE,
+       Generated.LIST_COPY_DEFAULT_VALUE, Generated.DICT_COPY_DEFAULT_VALUE, Generated.TRAIT_LIST_OBJECT_DEFAULT_VALUE,
+       Generated.TRAIT_DICT_OBJECT_DEFAULT_VALUE, Generated.CALLABLE_AND_ARGS_DEFAULT_VALUE,
+       Generated.CALLABLE_DEFAULT_VALUE, Generated.TRAIT_SET_OBJECT_DEFAULT_VALUE, Generated.DISALLOW_DEFAULT_VALUE]
+      = [0, 1, 2, 3, 4, 5, 6, 7, 8, 9, 10]
     ∧ Generated.cloneCopiesDefaultValue = ["trait_list_object", "trait_dict_object", "trait_set_object"]
     ∧ Generated.cloneBecomesConstantDefaultValue = ["callable_and_args", "callable", "object", "list_copy", "dict_copy"]
     ∧ Generated.cloneNoOverrideDefaultValue = ["disallow"]
@@ -49,40 +51,12 @@ surfaces as the read's exception.  Every environment. -/
 theorem C10_first_read (E : Env) (w : World) (i : Nat) (n : Name) (o : Inst) (td : TraitDef)
     (hi : w.insts[i]? = some o) (ht : w.traitOf o n = some td) (hk : td.core.kind = .trait)
     (hp : td.core.post = none) (hs : assocGet o.dict n = none) :
-    (∀ v c, defaultValueFor E td.core o.oid n w.ctx = (.ok v, c) →
+    (∀ v, (defaultValueFor E td.core o.oid n w.ctx).1 = .ok v →
       (World.step E w (.get i n)).1 = { val := some v }
       ∧ ∃ o', (World.step E w (.get i n)).2.insts[i]? = some o' ∧ assocGet o'.dict n = some v)
-    ∧ (∀ e c, defaultValueFor E td.core o.oid n w.ctx = (.error e, c) →
-      (World.step E w (.get i n)).1 = { exc := some e }) := by
-  have hslot : (w.focus o n).slot = none := hs
-  have hstep : ∀ r c, defaultValueFor E td.core o.oid n w.ctx = (r, c) →
-      Attr.step E td.core (w.focus o n) .get =
-        match r with
-        | .ok v => ({ val := some v }, { (w.focus o n) with slot := some v, ctx := c })
-        | .error e => ({ exc := some e }, { (w.focus o n) with ctx := c }) := by
-    intro r c hd
-    have hd' : (w.focus o n).defaultValueFor E td.core = (r, { (w.focus o n) with ctx := c }) := by
-      unfold OSt.defaultValueFor
-      show (match defaultValueFor E td.core o.oid n w.ctx with | (r, c) => (r, _)) = _
-      rw [hd]
-    unfold Attr.step getattro traitGetattr getattrTrait
-    simp only [hslot, hk, hd']
-    cases r with
-    | error e => rfl
-    | ok v =>
-      simp only [postSetattr, hp, callNotifiers_uninit']
-      split <;> rfl
-  constructor
-  · intro v c hd
-    have h1 := hstep _ _ hd
-    simp only [World.step, World.onAttr, hi, ht, h1]
-    refine ⟨rfl, _, setInst_get_self w i o _ _ hi, ?_⟩
-    unfold Inst.absorb
-    simp only []
-    exact assocGet_assocSet_self _ _ _
-  · intro e c hd
-    have h1 := hstep _ _ hd
-    simp only [World.step, World.onAttr, hi, ht, h1]
+    ∧ (∀ e, (defaultValueFor E td.core o.oid n w.ctx).1 = .error e →
+      (World.step E w (.get i n)).1 = { exc := some e }) :=
+  first_read E w i n o td hi ht hk hp hs
 
 /-- The declared default, kind by kind: a static value is returned as is and
 nothing is allocated; the object kind returns the object; the five copying
@@ -103,7 +77,8 @@ theorem C10_declared_default (E : Env) (P : Nat) (t : TraitCore) (obj : Id) (nam
   · unfold defaultValueFor
     have h1 : ¬ (t.dvt = Generated.CONSTANT_DEFAULT_VALUE ∨ t.dvt = Generated.MISSING_DEFAULT_VALUE) := by
       rw [h]; decide
-    simp only [h1, if_false, h, if_true]
+    simp only [h]
+    rfl
   · have hfresh := heapGet_fresh_none wf c.alloc (Nat.le_refl _)
     have h1 : ¬ (t.dvt = Generated.CONSTANT_DEFAULT_VALUE ∨ t.dvt = Generated.MISSING_DEFAULT_VALUE) := by
       unfold copyKind at h
@@ -153,11 +128,11 @@ theorem C10_stable_read (E : Env) (w : World) (i : Nat) (n : Name) (o : Inst) (t
     ∧ (World.step E w (.get i n)).2.ctx = w.ctx
     ∧ ∃ o', (World.step E w (.get i n)).2.insts[i]? = some o' ∧ o'.dict = assocSet o.dict n v := by
   have hslot : (w.focus o n).slot = some v := hs
-  have h1 : Attr.step E td.core (w.focus o n) .get = ({ val := some v }, w.focus o n) := by
-    unfold Attr.step getattro
+  have h1 : Model.Attr.step E td.core (w.focus o n) .get = ({ val := some v }, w.focus o n) := by
+    unfold Model.Attr.step getattro
     simp only [hslot]
   simp only [World.step, World.onAttr, hi, ht, h1]
-  refine ⟨rfl, rfl, _, setInst_get_self w i o _ _ hi, ?_⟩
+  refine ⟨by first | rfl | trivial, by first | rfl | trivial, _, setInst_get_self w i o _ _ hi, ?_⟩
   unfold Inst.absorb
   simp only [hslot]
 
@@ -212,7 +187,7 @@ theorem C10_silent (E : Env) (w : World) (i : Nat) (n : Name) :
     | some td =>
       simp only []
       have := getattro_log E td.core (w.focus o n)
-      unfold Attr.step
+      unfold Model.Attr.step
       cases hg : getattro E td.core (w.focus o n) with
       | mk r s =>
         rw [hg] at this
@@ -357,12 +332,19 @@ def exHist : List WOp :=
 
 example :
     Good exEnv 10 exWorld ∧ (∀ op ∈ exHist, OpOk exEnv 10 op)
-    ∧ ((World.run exEnv exWorld exHist).insts.map (fun o => o.dict)) = [[(0, 15)], [(0, 17)], [(0, 18)]]
-    ∧ heapGet (World.run exEnv exWorld exHist).ctx.heap 15 = some [3, 4, 5, 6]
+    ∧ ((World.run exEnv exWorld exHist).insts.map (fun o => o.dict)) = [[(0, 14)], [(0, 16)], [(0, 17)]]
+    ∧ heapGet (World.run exEnv exWorld exHist).ctx.heap 14 = some [3, 4, 5, 6]
+    ∧ heapGet (World.run exEnv exWorld exHist).ctx.heap 16 = some [3, 4]
     ∧ heapGet (World.run exEnv exWorld exHist).ctx.heap 17 = some [3, 4]
-    ∧ heapGet (World.run exEnv exWorld exHist).ctx.heap 18 = some [3, 4]
     ∧ (World.run exEnv exWorld exHist).ctx.log = [] := by
-  refine ⟨exGood, by decide, by decide, by decide, by decide, by decide, by decide⟩
+  refine ⟨exGood, opOk_of_bool _ (by decide), by decide, by decide, by decide, by decide, by decide⟩
+
+/-- What `buildClass` produces for the subclass `x = [5]` (object 11) of `exBase`:
+a CONSTANT default holding object 11 itself. -/
+def exSub : ClassRec :=
+  { traits := [(0, { handler := { exCore with dvt := Generated.CONSTANT_DEFAULT_VALUE, dv := some 11 },
+                     ctrait := { core := { exCore with dvt := Generated.CONSTANT_DEFAULT_VALUE, dv := some 11 },
+                                 notifiers := none } })] }
 
 /-- **Negation witness** (finding F9): base class `x = Any([3, 4])`, subclass
 `x = [5]`.  `TraitType.clone` turns the copying default into a *constant* one
@@ -370,18 +352,17 @@ example :
 the very same list object 11. -/
 theorem C10_fresh_fails_at_override : ¬ C10_fresh_statement := by
   intro H
-  let sub : List Decl := [{ name := 0, member := some (.value 11) }]
-  have hb : buildClass exEnv (some exBase) sub exCtx =
-      (.ok (buildClass exEnv (some exBase) sub exCtx).1.toOption.get!, (buildClass exEnv (some exBase) sub exCtx).2) := by
-    decide
-  have hsep := H exEnv 10 exBase exCtx sub _ _ [.new 1, .new 1, .get 0 0, .get 1 0] exGood
+  have hb : buildClass exEnv (some exBase) [{ name := 0, member := some (.value 11) }] exCtx =
+      (.ok exSub, exCtx) := by rfl
+  have hsep := H exEnv 10 exBase exCtx [{ name := 0, member := some (.value 11) }] exSub exCtx
+    [.new 1, .new 1, .get 0 0, .get 1 0] exGood
     (by
       intro d hd
-      simp only [sub, List.mem_singleton] at hd
+      simp only [List.mem_singleton] at hd
       subst hd
       exact ⟨rfl, Or.inr ⟨11, [5], rfl, by decide, by decide⟩⟩)
-    hb (by decide)
-  exact hsep 0 1 11 (by decide) ⟨_, rfl, 0, 11, by decide, Or.inl rfl⟩ (by decide)
+    hb (opOk_of_bool _ (by decide))
+  exact hsep 0 1 11 (by decide) ⟨_, rfl, 0, 11, by decide, Or.inl rfl⟩ (by unfold World.Mut; decide)
     ⟨_, rfl, 0, 11, by decide, Or.inl rfl⟩
 
 end TraitsVerif.Props.C10
